@@ -287,6 +287,69 @@ def real_runs(rep, rng, tier):
                         break
         rep.count(1)
         rep.nontrivial(("real", k, adaptive))
+    # pause and resume (pause_on_interrupt=True, the user answers "y"): the run goes on as if nothing had happened - same
+    # frames under the same labels, same times, one record per update
+    import builtins
+    from tdgl.solver.solver import TDGLSolver
+    from tdgl.solver import runner as runner_mod
+    pdev = meshes.make_device(rng, holes=0, terminals=2, max_edge_length=1.3)
+
+    def paused_run(td, name, k, where=None, at=None):
+        opts = runs.make_options(None, solve_time=0.08, dt_init=1e-2, dt_max=1e-2, adaptive=False, save_every=k,
+                                 output_file=os.path.join(td, name), pause_on_interrupt=True)
+        sv = TDGLSolver(pdev, opts, applied_vector_potential=0.3, terminal_currents={"source": 1.0, "drain": -1.0})
+        orig_u, fired, ups = sv.update, {}, []
+        orig_save = runner_mod.DataHandler.save_time_step
+
+        def upd(state, rs, dt, **kw):
+            if where == "update" and state["step"] == at and not fired:
+                fired["x"] = 1
+                raise KeyboardInterrupt()
+            res = orig_u(state, rs, dt, **kw)
+            ups.append(float(res.dt))
+            return res
+
+        def save(self, state, data, running_state):
+            if where == "save" and state["step"] == at and not fired:
+                fired["x"] = 1
+                raise KeyboardInterrupt()
+            return orig_save(self, state, data, running_state)
+
+        sv.update = upd
+        runner_mod.DataHandler.save_time_step = save
+        old_in = builtins.input
+        builtins.input = lambda *a_: "y"
+        try:
+            sol_ = sv.solve()
+        finally:
+            builtins.input = old_in
+            runner_mod.DataHandler.save_time_step = orig_save
+        with h5py.File(sol_.path, "r") as f:
+            fr = [(int(key), int(f["data"][key].attrs["step"]), float(f["data"][key].attrs["time"]),
+                   np.array(f["data"][key]["psi"])) for key in sorted(f["data"], key=int)]
+        return fr, ups, sol_
+
+    with tempfile.TemporaryDirectory(prefix="pyt_c05p_") as td:
+        for k in (2, 3):
+            ref_fr, ref_ups, _ = paused_run(td, f"ref{k}.h5", k)
+            for where, at in (("update", 0), ("update", 3), ("update", 4), ("update", 7), ("save", 0), ("save", k), ("save", 2 * k)):
+                case = {"save_every": k, "interrupted_in": where, "at_step": at, "answer": "y (resume)"}
+                try:
+                    fr, ups, solp = paused_run(td, f"p{k}_{where}_{at}.h5", k, where, at)
+                except BaseException as e:  # noqa: BLE001
+                    rep.violation(f"pause and resume raised {type(e).__name__}: {e}"[:200], case)
+                    continue
+                if [(a_[0], a_[1], a_[2]) for a_ in fr] != [(a_[0], a_[1], a_[2]) for a_ in ref_fr] or \
+                        any(not np.array_equal(a_[3], b_[3]) for a_, b_ in zip(fr, ref_fr)):
+                    rep.violation("after a pause and resume the recorded frames are not those of the uninterrupted run (a frame labelled step s "
+                                  "must hold the state after exactly s updates)",
+                                  {**case, "labels_times": [(a_[1], round(a_[2], 6)) for a_ in fr][:8],
+                                   "uninterrupted": [(a_[1], round(a_[2], 6)) for a_ in ref_fr][:8]})
+                elif len(solp.times) != len(fr) or np.max(np.abs(np.asarray(solp.times) - np.array([a_[2] for a_ in fr]))) > 1e-12 \
+                        or len(solp.dynamics.dt) != len(ups):
+                    rep.violation("after a pause and resume Solution.times / the per-step records disagree with the recorded frames", case)
+                rep.count(1)
+            rep.nontrivial(("pause-resume", k))
     # a run in which updates are refused and retried with smaller steps: the time step RECORDED for a step (per-step record,
     # frame times, Solution.times) must be the one the accepted update was computed with
     rdev = meshes.make_device(rng, holes=0, terminals=0, max_edge_length=1.1, probe_points=False)
@@ -337,7 +400,6 @@ def real_runs(rep, rng, tier):
     rep.coverage["real_run_retried_updates"] = retried_total[0]
     # environment form: one directory per job, the same RELATIVE output name in each, the working directory changes after every
     # solve: each solution's frames, labels and times must stay those of its own run
-    import os
     cwd_ = os.getcwd()
     with tempfile.TemporaryDirectory(prefix="pyt_c05j_") as td:
         jobs = []
